@@ -288,8 +288,9 @@ func orcTrigger(s *orcStep, prop string) string {
 			if e.RefCount > 1 {
 				return "connection-has-index-references"
 			}
-			if e.SrcHead != nil || e.DstHead != nil {
-				return "connection-has-arrowhead"
+			if e.HeadMap {
+				// _set takes "the first reference with a map" as the connection's own map
+				return "connection-has-arrowhead-reference-with-map"
 			}
 		}
 		if c.Kind == "reconnect" || c.Kind == "rename" || c.Kind == "move" {
@@ -428,10 +429,39 @@ func orcTrigger(s *orcStep, prop string) string {
 		}
 	}
 	// --- `key: null` statements in the source --------------------------------------------
-	if strings.Contains(s.Pre.Text, ": null") {
-		// elements declared before a `x: null` line are erased and partly resurrected by later
-		// references; the oracle's bookkeeping (ensureNode, reference lists) does not model that
-		return "source-has-null-statements"
+	// a `x: null` line for the target / an endpoint or one of their containers: what is
+	// declared above that line is erased and partly resurrected by later references; the
+	// reference lists d2oracle works on (obj.References, ensureNode's "persisting reference")
+	// still contain the erased statements
+	{
+		var paths [][]string
+		if t >= 0 {
+			paths = append(paths, pre.Objs[t].Path)
+		}
+		if te >= 0 {
+			paths = append(paths, pre.Objs[pre.Edges[te].Src].Path, pre.Objs[pre.Edges[te].Dst].Path)
+		}
+		if t < 0 && te < 0 && !k.Edge {
+			paths = append(paths, k.Obj)
+		}
+		for _, ln := range strings.Split(s.Pre.Text, "\n") {
+			tl := strings.TrimSpace(ln)
+			if !strings.HasSuffix(tl, ": null") {
+				continue
+			}
+			nkk := orcParseKey(strings.TrimSuffix(tl, ": null"))
+			if nkk.Err != nil || nkk.Edge || len(nkk.Obj) == 0 {
+				continue
+			}
+			last := nkk.Obj[len(nkk.Obj)-1]
+			for _, pth := range paths {
+				for _, seg := range pth {
+					if seg == last {
+						return "null-statement-for-target-or-its-container"
+					}
+				}
+			}
+		}
 	}
 	// --- quoting -----------------------------------------------------------------------
 	for _, x := range k.ObjRaw {
